@@ -778,6 +778,11 @@ class Fxp():
         else:
             val = np.array(val)
 
+        if val.dtype == bool:
+            # booleans count as the numbers 1 and 0
+            val = val.astype(int)
+            vdtype = int
+
         if val.dtype == object and val.size > 0 and any(isinstance(v, Decimal) for v in val.flatten()):
             # Decimal elements of a list / tuple / array: exact rationals, like a Decimal scalar
             val = np.array([Fraction(v) if isinstance(v, Decimal) else v for v in val.flatten()] + [None], dtype=object)[:-1].reshape(val.shape)
